@@ -24,6 +24,7 @@ fn main() {
         "check" => cmd_check(&args),
         "replay" => cmd_replay(&args),
         "gen-sample" => cmd_gen_sample(&args),
+        "encode-fuzz" => cmd_encode_fuzz(&args),
         _ => {
             eprintln!("usage: fi_check check --prop Cxx --tier quick|thorough [--seed N] | replay <file> | gen-sample ...");
             2
@@ -125,6 +126,12 @@ fn cmd_check(args: &[String]) -> i32 {
             stats.notes.push(format!("sanitizer report: {}", r));
         }
         failure = out.failure;
+    }
+
+    // 6. driver U (thorough tiers that ask for it): a sample of the histories under Miri
+    let miri_n = if tier == Tier::Quick { p.quick.miri_histories } else { p.thorough.miri_histories };
+    if failure.is_none() && miri_n > 0 && std::env::var("VERIF_NO_MIRI").is_err() {
+        failure = fi_verif::drivers::mirirun::campaign(&vdir, prop, &p.worlds, ((miri_n as f64) * scale.max(0.1)) as usize, seed, &mut stats);
     }
 
     match failure {
@@ -272,4 +279,29 @@ fn cmd_gen_sample(args: &[String]) -> i32 {
         println!("{}", line);
     }
     0
+}
+
+fn cmd_encode_fuzz(args: &[String]) -> i32 {
+    let (Some(src), Some(dst)) = (args.get(2), args.get(3)) else {
+        eprintln!("encode-fuzz <history.json> <out.bin>");
+        return 2;
+    };
+    let Ok(text) = std::fs::read_to_string(src) else { return 2 };
+    let Ok(doc) = serde_json::from_str::<Value>(&text) else { return 2 };
+    let Some(world) = doc.get("world").and_then(|w| w.as_str()).and_then(fi_verif::worlds::by_name) else { return 2 };
+    let Some(cfg) = doc.get("config").and_then(cfg_from_json) else { return 2 };
+    let specs = world.specs(&cfg);
+    let Some(ops) = doc.get("ops").and_then(|o| ops_from_json(&specs, o)) else { return 2 };
+    match fi_verif::fuzz::encode(world, &cfg, &ops) {
+        Some(b) => {
+            if std::fs::write(dst, b).is_err() {
+                return 2;
+            }
+            0
+        }
+        None => {
+            eprintln!("this history cannot be encoded for the fuzz target (configuration not in the fuzz set)");
+            2
+        }
+    }
 }
